@@ -19,7 +19,8 @@ Where the model deliberately departs from the letter of the code (documented in 
 * floats are exact rationals; `math.isclose(d, 0.0)` (relative tolerance only) is `d = 0`;
 * `__vector_snap_closest` decides the side with `atan2`; the model uses the equivalent sign form
   (`u = d.x*h - d.y*w`, `v = d.x*h + d.y*w`) and declares the inputs on which a float `atan2`
-  may legitimately choose a neighbouring side (`closestTie`: `u = 0 ∨ v = 0`); the sign form is
+  may legitimately choose a neighbouring side (`closestTie`: `u = 0 ∨ v = 0`; since /repo
+  `alpha <= angle` both neighbours meet in the corner facing the source on all four diagonals); the sign form is
   only valid for a proper box, so `snapClosest` answers `Err.degenerate` unless `0 < w ∧ 0 < h`;
 * `Edge.vector_snap` normalises the segment and multiplies back; the model uses the parameter
   `t = ((v - a)·(b - a)) / |b - a|²` clamped to `[0, 1]`, which is the same point without `sqrt`.
@@ -167,13 +168,15 @@ inductive Side where
   | right | bottom | top | left
 deriving DecidableEq, Repr
 
-/-- which of the four guards of `__vector_snap_closest` fires (for a proper box) -/
+/-- which of the four guards of `__vector_snap_closest` fires (for a proper box): with `angle = θ - φ`, `θ = atan2(h, w)`,
+`φ = atan2(d.y, d.x)`: `0 < angle < alpha` ⇔ `-θ < φ < θ` ⇔ `0 < u ∧ 0 < v`; `-alpha' < angle <= 0` ⇔ `θ ≤ φ < π-θ` ⇔
+`u ≤ 0 ∧ 0 < v`; `alpha <= angle < pi` ⇔ `θ-π < φ ≤ -θ` ⇔ `0 < u ∧ v ≤ 0`; else left (`u ≤ 0 ∧ v ≤ 0`) -/
 def closestSide (b : Box) (d : V2) : Side :=
   let u := closestU b d
   let v := closestV b d
   if 0 < u ∧ 0 < v then .right
   else if u ≤ 0 ∧ 0 < v then .bottom
-  else if 0 < u ∧ v < 0 then .top
+  else if 0 < u ∧ v ≤ 0 then .top
   else .left
 
 /-- the border segment of a side, end points in the order the code passes them -/
